@@ -64,7 +64,7 @@ func init() {
 		PID: "C04", PLevel: "exploration",
 		RuleText: "scenario as for C01, biased to 3 destinations with adversarial latency classes, 4 parallel processor workers with per-record latencies (default engine), slow DLQ, mixed ack/nack/filter outcomes, stop and destination stream failure mid-delivery; every ack position received by a source plugin is one obligation (compared with the emit sequence of the same plugin session). Non-trivial: >=5 acks judged; distinct = distinct (engine, topology shape, destination completion-order class).",
 		Assume:   []string{"positions are minted by the fake source and decode to the emit index", "an ack is logged after the plugin received it, an emit before it is handed to the engine"},
-		Quick:    320, Thorough: 12000,
+		Quick:    320, Thorough: 3200,
 		PointBias: []string{"funnel.worker.ack", "funnel.worker.nack", "funnel.multiack.ack", "funnel.multiack.nack", "connector.source.ack", "stream.sourceacker.ack", "stream.sourceacker.nack", "stream.fanout.ack", "connector.persister.callback"},
 		Anchors:   []string{"pkg/lifecycle/stream/source_acker.go", "pkg/lifecycle/stream/fanout.go", "pkg/lifecycle/stream/parallel.go", "pkg/lifecycle/stream/fanin.go", "pkg/lifecycle-poc/funnel/worker.go", "pkg/lifecycle-poc/funnel/run_ledger.go", "pkg/connector/source.go"},
 		Gen:       gen, Judge: judge,
